@@ -356,6 +356,17 @@ func init() {
 		g.inconclusive("math.Floor of a symbolic float")
 		return nil
 	})
+	reg("math.NaN", func(g *G, fr *Frame, fn *ssa.Function, a []Value) Value { return F64{C: math.NaN()} })
+	reg("math.Inf", func(g *G, fr *Frame, fn *ssa.Function, a []Value) Value {
+		sign := a[0].(Int)
+		if sign.T != nil {
+			g.inconclusive("math.Inf with a symbolic sign")
+		}
+		if int64(sign.C) >= 0 {
+			return F64{C: math.Inf(1)}
+		}
+		return F64{C: math.Inf(-1)}
+	})
 	reg("math.IsNaN", func(g *G, fr *Frame, fn *ssa.Function, a []Value) Value {
 		return mkBool(FPPred("fp.isNaN", a[0].(F64).Term()))
 	})
